@@ -29,7 +29,7 @@ simset.inject(wpool, wabs, wastream)
 BUDGETS = {'C08': (45, 900, 100), 'C19': (45, 900, 100)}
 LEVELS = {'C08': 'exploration', 'C19': 'exploration'}
 PROBES = {
-    'C08': ['framing.length', 'framing.chunked', 'framing.close', 'framing.none', 'truncated', 'surplus', 'keepalive_reuse', 'interim_response',
+    'C08': ['framing.length', 'framing.chunked', 'framing.close', 'framing.none', 'truncated', 'surplus', 'keepalive_reuse', 'interim_response', 'ignore_length_option',
             'nobody_with_length', 'head_request', 'http10', 'lf_only', 'trailers', 'overrun_branch', 'metamorphic',
             'cl_and_te', 'seg.bytes', 'seg.boundary'],
     'C19': ['coding.gzip', 'coding.deflate-zlib', 'coding.deflate-raw', 'coding.identity', 'first_piece_1byte',
@@ -111,7 +111,7 @@ class H:
     pass
 
 
-def execute(tape, script, r, seg_mode=None, vary_latency=True, timeout=60.0):
+def execute(tape, script, r, seg_mode=None, vary_latency=True, timeout=60.0, ignore_length=False):
     """Run the script through the real client. Returns list of outcome dicts."""
     h = H()
     h.script = script
@@ -135,7 +135,12 @@ def execute(tape, script, r, seg_mode=None, vary_latency=True, timeout=60.0):
             resolver.dns_python_enabled = False
             pool = ConnectionPool(resolver=resolver, connection_factory=functools.partial(
                 Connection, timeout=timeout, connect_timeout=timeout))
-            client = HTTPClient(connection_pool=pool)
+            if ignore_length:
+                # --ignore-length: a Content-Length field is not trusted (read until close instead); chunked framing is still chunked
+                from wpull.protocol.http.stream import Stream
+                client = HTTPClient(connection_pool=pool, stream_factory=functools.partial(Stream, ignore_length=True))
+            else:
+                client = HTTPClient(connection_pool=pool)
 
             @asyncio.coroutine
             def one(i, resp):
@@ -344,12 +349,16 @@ def run(tape, prop, tier):
     else:
         n = tape.between(1, 4, 'nex')
         faults_on = tape.chance(1, 2, 'faults_on')
+        ignore_length = prop == 'C08' and tape.chance(1, 10, 'ignore_length')
+        if ignore_length:
+            r.probes['ignore_length_option'] += 1
         script = []
         for i in range(n):
             method = 'HEAD' if tape.chance(1, 6, 'head') else 'GET'
-            script.append(httpgen.gen_response(tape, method=method, allow_truncate=faults_on, allow_surplus=faults_on, allow_interim=(prop == 'C08')))
+            script.append(httpgen.gen_response(tape, method=method, allow_truncate=faults_on, allow_surplus=faults_on, allow_interim=(prop == 'C08'),
+                                               allow_length_framing=not ignore_length))
         r.sub = 'faults' if faults_on else 'fault-free'
-    outcomes, h = execute(tape, script, r)
+    outcomes, h = execute(tape, script, r, ignore_length=(prop != 'C19' and ignore_length))
     judge(prop, r, script, outcomes, h)
     # metamorphic re-runs: same script, fixed segmentations, no latency variation
     meta = tape.chance(1, 4, 'metamorphic')
@@ -357,7 +366,7 @@ def run(tape, prop, tier):
         r.probes['metamorphic'] += 1
         results = []
         for mode in (0, 4, 3):
-            o2, h2 = execute(tape, script, r, seg_mode=mode, vary_latency=False)
+            o2, h2 = execute(tape, script, r, seg_mode=mode, vary_latency=False, ignore_length=(prop != 'C19' and ignore_length))
             judge(prop, r, script, o2, h2, label=' [metamorphic re-run, segmentation mode %d]' % mode)
             results.append([(o.get('status'), o.get('body'), o.get('error')) for o in o2])
         base = [(o.get('status'), o.get('body'), o.get('error')) for o in outcomes]
